@@ -304,15 +304,30 @@ impl SimHooks for Sim {
             let progressed = self.env_turn();
             // real readiness (edge-triggered, truthful)
             let mut buf: Vec<libc::epoll_event> = vec![libc::epoll_event { events: 0, u64: 0 }; max];
-            let n = unsafe { interpose::sys::epoll_wait(epfd, buf.as_mut_ptr(), max as c_int, 0) }.max(0) as usize;
+            let mut n = unsafe { interpose::sys::epoll_wait(epfd, buf.as_mut_ptr(), max as c_int, 0) }.max(0) as usize;
             let mut ready: Vec<libc::epoll_event> = std::mem::take(&mut self.pending_events);
-            for e in &buf[..n] {
-                let (token, ev) = (e.u64, e.events);
-                if let Some(x) = ready.iter_mut().find(|x| x.u64 == token) {
-                    x.events |= ev;
-                } else {
-                    ready.push(libc::epoll_event { events: ev, u64: token });
+            // Everything the peers just wrote must be visible before the batch is handed over:
+            // loopback delivery runs in softirq context, normally inside the writer's own
+            // syscall, but on a saturated machine the kernel may defer it to ksoftirqd. A batch
+            // sampled in between would miss an event that the same schedule shows on a quiet
+            // machine. Sample again after yielding the CPU until a sample adds nothing (edges are
+            // consumed by each sample, so the samples are merged).
+            let mut rounds = 0;
+            loop {
+                for e in &buf[..n] {
+                    let (token, ev) = (e.u64, e.events);
+                    if let Some(x) = ready.iter_mut().find(|x| x.u64 == token) {
+                        x.events |= ev;
+                    } else {
+                        ready.push(libc::epoll_event { events: ev, u64: token });
+                    }
                 }
+                rounds += 1;
+                if (n == 0 && rounds > 1) || rounds > 4 || (n == 0 && !progressed) {
+                    break;
+                }
+                unsafe { libc::sched_yield() };
+                n = unsafe { interpose::sys::epoll_wait(epfd, buf.as_mut_ptr(), max as c_int, 0) }.max(0) as usize;
             }
             // owed edges (after an injected short transfer / EAGAIN)
             let owed = std::mem::take(&mut self.owed);
